@@ -33,7 +33,10 @@ import (
 	"strconv"
 	"strings"
 
+	"time"
+
 	"github.com/coreos/pkg/capnslog"
+	"github.com/youzan/ZanRedisDB/pkg/fileutil"
 	"github.com/youzan/ZanRedisDB/raft/raftpb"
 	"github.com/youzan/ZanRedisDB/wal"
 	"github.com/youzan/ZanRedisDB/wal/walpb"
@@ -71,14 +74,15 @@ type wValid struct {
 
 // one call of a history
 type wCall struct {
-	kind string // create save snap release close restart
-	opt  bool
-	hs   wHS
-	ents []wEnt
-	size []int // payload sizes
-	cut  bool  // force a cut in this Save
-	snap wSnap
-	rel  int
+	kind    string // create save snap release close restart
+	opt     bool
+	hs      wHS
+	ents    []wEnt
+	size    []int // payload sizes
+	cut     bool  // force a cut in this Save
+	snap    wSnap
+	rel     int // release index / purge keep count
+	removed int
 }
 
 type wFrame struct{ off, end int64 }
@@ -117,6 +121,7 @@ type walDrv struct {
 	saved                                              []wSnap // markers saved by the running history
 	where                                              string
 	typeFlips, misname, entiLost, procOnly, hole0      bool
+	purgedRecs, nPurged, nReleases, nSyncs             int
 	maxEntBytes                                        int
 	lastEnt, maxMark                                   int
 	imgBase                                            string
@@ -478,14 +483,14 @@ func (d *walDrv) emitImage(kind string, off int64, segs []*wSeg, tailImg []byte,
 		}
 		ioutil.WriteFile(filepath.Join(d.imgDir, s.name), b, 0600)
 	}
-	n, tail := 0, "none"
+	n, tail := d.purgedRecs, "none"
 	for i, s := range segs {
 		if i < ti {
 			n += len(s.frames)
 		}
 	}
 	if kind == "flip" || kind == "hole" {
-		n = wNrec(segs)
+		n = d.purgedRecs + wNrec(segs)
 	} else if tailImg != nil {
 		k, t := wClassify(segs[ti], tailImg)
 		n, tail = n+k, t
@@ -521,7 +526,7 @@ func (d *walDrv) emitImage(kind string, off int64, segs []*wSeg, tailImg []byte,
 	}
 	// is the marker the image is opened at among the records that are intact in the image?
 	hasMarker := false
-	g := 0
+	g := d.purgedRecs
 	for _, s := range segs {
 		for fi := range s.frames {
 			g++
@@ -698,7 +703,7 @@ func (d *walDrv) images(dense bool) {
 	// an older segment that ends early at a record boundary (its last records never reached
 	// the disk, zeros or EOF instead) while the following segments are intact: the CRC chain
 	// across segments has to notice the hole
-	gbase := 0
+	gbase := d.purgedRecs
 	for si, s := range segs[:ti] {
 		nf := len(s.frames)
 		if d.hole0 && si > 0 {
@@ -737,7 +742,7 @@ func (d *walDrv) images(dense bool) {
 		return
 	}
 	// single bit flips in the synced region of any segment
-	base := 0
+	base := d.purgedRecs
 	for si, s := range segs {
 		do := d.durOff[s.name]
 		for fi, f := range s.frames {
@@ -800,9 +805,35 @@ func (d *walDrv) snapMode() int {
 func (d *walDrv) post(ev trace.M, err error) {
 	segs := d.readDir()
 	ev["err"] = wErrKind(err)
-	ev["nrec"] = wNrec(segs)
-	ev["dur"] = d.durCount(segs)
+	ev["nrec"] = d.purgedRecs + wNrec(segs)
+	ev["dur"] = d.purgedRecs + d.durCount(segs)
 	d.tw.Emit(ev)
+}
+
+// one pass of the real background purge (fileutil.PurgeFile): the stop channel is already
+// closed, so the loop removes what it may remove once and ends
+func (d *walDrv) purge(max int) (removed int, err error) {
+	before := d.readDir()
+	stop := make(chan struct{})
+	close(stop)
+	donec, errc := fileutil.PurgeFileWithDoneNotify(d.dir, "wal", uint(max), time.Hour, stop)
+	<-donec
+	select {
+	case err = <-errc:
+	default:
+	}
+	left := map[string]bool{}
+	for _, n := range d.readDirNames() {
+		left[n] = true
+	}
+	for _, s := range before {
+		if !left[s.name] {
+			removed++
+			d.purgedRecs += len(s.frames)
+			d.nPurged++
+		}
+	}
+	return
 }
 
 // run one history; images after every call
@@ -818,6 +849,7 @@ func (d *walDrv) history(calls []wCall, dense bool, imgEvery int) {
 	d.saved = []wSnap{{0, 0}}
 	d.lastHS = wHS{}
 	d.entiLost, d.lastEnt, d.maxMark = false, 0, 0
+	d.purgedRecs = 0
 	d.w = nil
 	d.nHist++
 	wal.SegmentSizeBytes = d.segSize
@@ -877,7 +909,13 @@ func (d *walDrv) history(calls []wCall, dense bool, imgEvery int) {
 				}
 				err = d.w.SaveSnapshot(walpb.Snapshot{Index: uint64(c.snap.I), Term: uint64(c.snap.T)})
 			case "release":
+				d.nReleases++
 				err = d.w.ReleaseLockTo(uint64(c.rel))
+			case "sync":
+				d.nSyncs++
+				err = d.w.Sync()
+			case "purge":
+				c.removed, err = d.purge(c.rel)
 			case "close":
 				err = d.w.Close()
 			case "restart":
@@ -923,6 +961,10 @@ func (d *walDrv) history(calls []wCall, dense bool, imgEvery int) {
 			d.post(trace.M{"ev": "snap", "i": c.snap.I, "t": c.snap.T}, err)
 		case "release":
 			d.post(trace.M{"ev": "release", "i": c.rel}, err)
+		case "sync":
+			d.post(trace.M{"ev": "sync"}, err)
+		case "purge":
+			d.post(trace.M{"ev": "purge", "max": c.rel, "removed": c.removed}, err)
 		case "close":
 			d.post(trace.M{"ev": "close"}, err)
 		case "restart":
@@ -931,7 +973,7 @@ func (d *walDrv) history(calls []wCall, dense bool, imgEvery int) {
 		if err != nil {
 			return
 		}
-		if c.kind == "release" || c.kind == "restart" {
+		if c.kind == "release" || c.kind == "restart" || c.kind == "sync" || (c.kind == "purge" && c.removed == 0) {
 			continue
 		}
 		if imgEvery <= 1 || ci%imgEvery == imgEvery-1 || ci == len(calls)-1 || cut {
@@ -1059,6 +1101,10 @@ func wLoadSim(path string, sizes func() int) ([]wCall, error) {
 			calls = append(calls, m.snap(ai(0), ai(1)))
 		case "DoRelease":
 			calls = append(calls, wCall{kind: "release", rel: ai(0)})
+		case "DoSync":
+			calls = append(calls, wCall{kind: "sync"})
+		case "DoPurge":
+			calls = append(calls, wCall{kind: "purge", rel: ai(0)})
 		case "DoClose":
 			calls = append(calls, wCall{kind: "close"})
 		case "DoRestart":
@@ -1136,6 +1182,57 @@ func wSizesHistory(rng *rand.Rand, variant int) []wCall {
 	pool = []int{wThresholdSize(rng, 3), wThresholdSize(rng, 1)}
 	calls = append(calls, m.save("zero", m.enti+1, 2, false, sz))
 	calls = append(calls, m.save("commit", m.enti+1, 0, false, sz))
+	return calls
+}
+
+// scripted history around lock release and purge: tiny segments that roll often, snapshots
+// (local at the commit index, or received ahead of the log), then what the node does -
+// wal.Sync(), ReleaseLockTo(snapshot index), a pass of the background purge - clean restarts
+// at the newest valid marker (which lock only the segments from the selected one on) and
+// further purge passes
+func wPurgeHistory(rng *rand.Rand) []wCall {
+	m := &wMirror{termOf: map[int]int{}}
+	sz := func() int { return 200 + rng.Intn(700) }
+	calls := []wCall{{kind: "create", opt: rng.Intn(2) == 0}}
+	calls = append(calls, m.save("term", 1, 1+rng.Intn(2), false, sz))
+	rounds := 2 + rng.Intn(3)
+	for r := 0; r < rounds; r++ {
+		for k := 1 + rng.Intn(3); k > 0; k-- {
+			kind := []string{"zero", "commit", "commit", "term"}[rng.Intn(4)]
+			if kind == "term" && m.last.T >= 5 {
+				kind = "commit"
+			}
+			calls = append(calls, m.save(kind, m.enti+1, 1+rng.Intn(3), rng.Intn(3) == 0, sz))
+		}
+		if rng.Intn(4) == 0 {
+			// snapshot received from the leader, ahead of the log, then the state that commits it
+			calls = append(calls, m.snap(m.enti+1+rng.Intn(3), wMax(m.last.T, 1)))
+			for k := range m.termOf {
+				delete(m.termOf, k)
+			}
+			calls = append(calls, m.save("commit", m.enti+1, 0, rng.Intn(2) == 0, sz))
+		} else if m.last.C > m.maxMarker {
+			i := m.maxMarker + 1 + rng.Intn(m.last.C-m.maxMarker)
+			t, ok := m.termOf[i]
+			if !ok {
+				t = wMax(m.last.T, 1)
+			}
+			calls = append(calls, m.snap(i, t))
+		}
+		if m.maxMarker > 0 && m.maxMarker <= m.last.C {
+			calls = append(calls, wCall{kind: "sync"}, wCall{kind: "release", rel: m.maxMarker})
+		}
+		calls = append(calls, wCall{kind: "purge", rel: rng.Intn(4)})
+		if rng.Intn(2) == 0 {
+			calls = append(calls, wCall{kind: "close"}, wCall{kind: "restart"})
+			calls = append(calls, wCall{kind: "purge", rel: rng.Intn(4)})
+			if rng.Intn(2) == 0 {
+				// a roll right after the restart, before any entry (segment naming)
+				calls = append(calls, m.save("term", m.enti+1, 0, true, sz))
+			}
+		}
+	}
+	calls = append(calls, m.save("commit", m.enti+1, 1+rng.Intn(2), false, sz))
 	return calls
 }
 
@@ -1230,7 +1327,16 @@ func wRandomHistory(rng *rand.Rand, n int, big bool, stateFirst bool) []wCall {
 				}
 			}
 		case r < 88:
-			calls = append(calls, wCall{kind: "release", rel: rng.Intn(m.enti + 2)})
+			// what the node does after a snapshot: wal.Sync(), release the locks up to the
+			// snapshot index, and at some point the background purge runs
+			if m.maxMarker > 0 && m.maxMarker <= m.last.C {
+				calls = append(calls, wCall{kind: "sync"}, wCall{kind: "release", rel: m.maxMarker})
+				if rng.Intn(3) > 0 {
+					calls = append(calls, wCall{kind: "purge", rel: rng.Intn(3)})
+				}
+			} else {
+				calls = append(calls, wCall{kind: "sync"})
+			}
 		case r < 94:
 			calls = append(calls, wCall{kind: "close"})
 			m.closed = true
@@ -1255,6 +1361,7 @@ func walsim(args []string) error {
 	misname := fs.Bool("misname", false, "scripted histories: marker ahead of the log, commit, close, restart, term change with a roll (regression stage of the fixed finding C05-segment-misnamed-after-restart)")
 	nsizes := fs.Int("sizes", 0, "number of scripted size-threshold histories (default segment size, process-crash images only)")
 	sizeVariants := fs.Int("sizevariants", 1, "1: one entry > 16 MB; 2: also a history that fills the 64 MB segment; 3: also an entry just below 100 MB")
+	purgeStage := fs.Bool("purge", false, "scripted histories around wal.Sync / ReleaseLockTo / the background purge / restarts")
 	hole0 := fs.Bool("hole0", false, "isolate stage of C05-crc-chain-vacuous-after-first-crc: only images whose first segment keeps nothing but its leading crc record")
 	typeFlips := fs.Bool("typeflips", false, "only bit flips in the record-type bytes (isolate stage of C05-record-type-unprotected)")
 	noStateFirst := fs.Bool("zero-after-restart", false, "scripted histories: restart, entry-only Save that rolls the segment (regression stage of the fixed finding C05-header-without-state-after-restart)")
@@ -1342,6 +1449,10 @@ func walsim(args []string) error {
 			calls = append(calls, m.snap(m.enti, wMax(m.last.T, 1)))
 			calls = append(calls, m.save("commit", m.enti+1, 1, false, sz))
 		}
+		if *purgeStage {
+			calls = wPurgeHistory(d.rng)
+			d.segSize = int64(1024 * (1 + d.rng.Intn(3)))
+		}
 		if *misname {
 			m := &wMirror{termOf: map[int]int{}}
 			sz := func() int { return 20 + d.rng.Intn(200) }
@@ -1369,6 +1480,6 @@ func walsim(args []string) error {
 	tw.Close()
 	summary(map[string]interface{}{"driver": "walsim", "part": *part, "histories": d.nHist, "sim_histories": nsim,
 		"calls": d.nCalls, "cuts": d.nCuts, "restarts": d.nRestarts, "images": d.nImages, "by_kind": d.byKind,
-		"by_tail": d.byTail, "by_outcome": d.byOutcome, "repaired": d.nRepaired, "big_entries": d.nBigEnts, "max_entry_bytes": d.maxEntBytes,  "events": tw.N})
+		"by_tail": d.byTail, "by_outcome": d.byOutcome, "repaired": d.nRepaired, "big_entries": d.nBigEnts, "segments_purged": d.nPurged, "releases": d.nReleases, "syncs": d.nSyncs, "max_entry_bytes": d.maxEntBytes, "events": tw.N})
 	return nil
 }
